@@ -1,1 +1,319 @@
-// catalogue of serializable values (filled in later)
+//! A catalogue of serializable values of every `Serialize` type, described by replayable
+//! descriptors, and a type-erased view (`Ser`) that lets drivers treat them uniformly.
+
+use crate::{bv_from_model, raw_from_model, rl_from_model, sparse_from_model, Bits};
+use serde::{Deserialize, Serialize as SerdeSerialize};
+use simple_sds::bit_vector::rank_support::RankSupport;
+use simple_sds::bit_vector::select_support::SelectSupport;
+use simple_sds::bit_vector::{BitVector, Complement, Identity};
+use simple_sds::int_vector::IntVector;
+use simple_sds::ops::{Push, Rank, Select, SelectZero};
+use simple_sds::raw_vector::RawVector;
+use simple_sds::rl_vector::RLVector;
+use simple_sds::serialize::Serialize;
+use simple_sds::sparse_vector::{SparseBuilder, SparseVector};
+use simple_sds::wavelet_matrix::wm_core::WMCore;
+use simple_sds::wavelet_matrix::WaveletMatrix;
+use std::any::Any;
+use std::convert::TryFrom;
+use std::fmt::Debug;
+use std::io;
+use vcore::enumr::Letter;
+
+/// A bit sequence description.
+#[derive(SerdeSerialize, Deserialize, Clone, Debug, Hash, PartialEq, Eq)]
+pub enum BitsDesc {
+    Word { len: usize, word: u64 },
+    Letters(Vec<Letter>),
+    Runs { pairs: Vec<(u64, u64)>, tail: u64 },
+}
+
+impl BitsDesc {
+    pub fn model(&self) -> Bits {
+        match self {
+            BitsDesc::Word { len, word } => Bits::from_word(*word, *len),
+            BitsDesc::Letters(l) => {
+                let (len, runs) = vcore::enumr::word_runs(l);
+                Bits::from_runs(len, &runs)
+            }
+            BitsDesc::Runs { pairs, tail } => {
+                let mut runs = Vec::new();
+                let mut at = 0u128;
+                for &(g, l) in pairs {
+                    at += g as u128;
+                    runs.push((at, l as u128));
+                    at += l as u128;
+                }
+                Bits::from_runs(at + *tail as u128, &runs)
+            }
+        }
+    }
+}
+
+/// A replayable description of one serializable value.
+#[derive(SerdeSerialize, Deserialize, Clone, Debug, Hash, PartialEq, Eq)]
+pub enum Desc {
+    U64(u64),
+    Usize(usize),
+    Pair(u64, u64),
+    VecU64(Vec<u64>),
+    VecUsize(Vec<usize>),
+    VecPair(Vec<(u64, u64)>),
+    Bytes(Vec<u8>),
+    Str(String),
+    OptVecU64(Option<Vec<u64>>),
+    OptBytes(Option<Vec<u8>>),
+    OptStr(Option<String>),
+    OptU64(Option<u64>),
+    OptOptVecU64(Option<Option<Vec<u64>>>),
+    OptOptStr(Option<Option<String>>),
+    Raw(BitsDesc),
+    Int { width: usize, values: Vec<u64> },
+    OptInt(Option<(usize, Vec<u64>)>),
+    /// Plain bitvector with a subset of supports: bit 0 rank, bit 1 select, bit 2 select_zero.
+    Bv { bits: BitsDesc, supports: u8 },
+    OptBv(Option<(BitsDesc, u8)>),
+    Sparse(BitsDesc),
+    /// Multiset sparse vector: universe and non-decreasing values.
+    SparseMulti { universe: usize, values: Vec<usize> },
+    Rl(BitsDesc),
+    WmCore(Vec<u64>),
+    Wm(Vec<u64>),
+    RankSup(BitsDesc),
+    SelSup(BitsDesc),
+    SelZeroSup(BitsDesc),
+}
+
+/// Type-erased serializable value.
+pub trait Ser: Any {
+    fn kind(&self) -> &'static str;
+    fn bytes(&self) -> Vec<u8>;
+    fn write_to(&self, w: &mut dyn io::Write) -> io::Result<()>;
+    fn size_elems(&self) -> usize;
+    fn size_bytes(&self) -> usize;
+    /// Loads a value of the same type from the reader.
+    fn load_same(&self, r: &mut dyn io::Read) -> io::Result<Box<dyn Ser>>;
+    fn eq_dyn(&self, other: &dyn Ser) -> bool;
+    fn debug(&self) -> String;
+    fn as_any(&self) -> &dyn Any;
+}
+
+impl<T: Serialize + PartialEq + Debug + 'static> Ser for T {
+    fn kind(&self) -> &'static str {
+        std::any::type_name::<T>()
+    }
+    fn bytes(&self) -> Vec<u8> {
+        let mut v = Vec::new();
+        self.serialize(&mut v).expect("serializing into a Vec cannot fail");
+        v
+    }
+    fn write_to(&self, mut w: &mut dyn io::Write) -> io::Result<()> {
+        self.serialize(&mut w)
+    }
+    fn size_elems(&self) -> usize {
+        self.size_in_elements()
+    }
+    fn size_bytes(&self) -> usize {
+        self.size_in_bytes()
+    }
+    fn load_same(&self, mut r: &mut dyn io::Read) -> io::Result<Box<dyn Ser>> {
+        let v = T::load(&mut r)?;
+        Ok(Box::new(v))
+    }
+    fn eq_dyn(&self, other: &dyn Ser) -> bool {
+        match other.as_any().downcast_ref::<T>() {
+            Some(o) => self == o,
+            None => false,
+        }
+    }
+    fn debug(&self) -> String {
+        let s = format!("{:?}", self);
+        if s.len() > 300 { format!("{}...", &s[..300]) } else { s }
+    }
+    fn as_any(&self) -> &dyn Any {
+        self
+    }
+}
+
+pub fn int_vector(width: usize, values: &[u64]) -> IntVector {
+    let mut v = IntVector::new(width).unwrap();
+    for &x in values {
+        v.push(x);
+    }
+    v
+}
+
+pub fn bv_with_supports(bits: &BitsDesc, supports: u8) -> BitVector {
+    let mut bv = BitVector::from(raw_from_model(&bits.model()));
+    if supports & 1 != 0 {
+        bv.enable_rank();
+    }
+    if supports & 2 != 0 {
+        bv.enable_select();
+    }
+    if supports & 4 != 0 {
+        bv.enable_select_zero();
+    }
+    bv
+}
+
+pub fn sparse_multiset(universe: usize, values: &[usize]) -> SparseVector {
+    let mut b = SparseBuilder::multiset(universe, values.len());
+    for &v in values {
+        b.set(v);
+    }
+    SparseVector::try_from(b).unwrap()
+}
+
+/// Builds the described value through the library's safe API.
+pub fn build(d: &Desc) -> Box<dyn Ser> {
+    match d {
+        Desc::U64(v) => Box::new(*v),
+        Desc::Usize(v) => Box::new(*v),
+        Desc::Pair(a, b) => Box::new((*a, *b)),
+        Desc::VecU64(v) => Box::new(v.clone()),
+        Desc::VecUsize(v) => Box::new(v.clone()),
+        Desc::VecPair(v) => Box::new(v.clone()),
+        Desc::Bytes(v) => Box::new(v.clone()),
+        Desc::Str(s) => Box::new(s.clone()),
+        Desc::OptVecU64(o) => Box::new(o.clone()),
+        Desc::OptBytes(o) => Box::new(o.clone()),
+        Desc::OptStr(o) => Box::new(o.clone()),
+        Desc::OptU64(o) => Box::new(*o),
+        Desc::OptOptVecU64(o) => Box::new(o.clone()),
+        Desc::OptOptStr(o) => Box::new(o.clone()),
+        Desc::Raw(b) => Box::new(raw_from_model(&b.model())),
+        Desc::Int { width, values } => Box::new(int_vector(*width, values)),
+        Desc::OptInt(o) => Box::new(o.as_ref().map(|(w, v)| int_vector(*w, v))),
+        Desc::Bv { bits, supports } => Box::new(bv_with_supports(bits, *supports)),
+        Desc::OptBv(o) => Box::new(o.as_ref().map(|(b, s)| bv_with_supports(b, *s))),
+        Desc::Sparse(b) => Box::new(sparse_from_model(&b.model()).expect("catalogue: sparse builder refused a valid set")),
+        Desc::SparseMulti { universe, values } => Box::new(sparse_multiset(*universe, values)),
+        Desc::Rl(b) => Box::new(rl_from_model(&b.model()).expect("catalogue: rl builder refused a valid run list")),
+        Desc::WmCore(v) => Box::new(WMCore::from(v.clone())),
+        Desc::Wm(v) => Box::new(WaveletMatrix::from(v.clone())),
+        Desc::RankSup(b) => Box::new(RankSupport::new(&bv_from_model(&b.model()))),
+        Desc::SelSup(b) => Box::new(SelectSupport::<Identity>::new(&bv_from_model(&b.model()))),
+        Desc::SelZeroSup(b) => Box::new(SelectSupport::<Complement>::new(&bv_from_model(&b.model()))),
+    }
+}
+
+fn bits_catalogue(big: bool) -> Vec<BitsDesc> {
+    use Letter::*;
+    let mut v = vec![
+        BitsDesc::Word { len: 0, word: 0 },
+        BitsDesc::Word { len: 1, word: 1 },
+        BitsDesc::Word { len: 7, word: 0b1011001 },
+        BitsDesc::Word { len: 63, word: !0 >> 1 },
+        BitsDesc::Word { len: 64, word: 0x8000_0000_0000_0001 },
+        BitsDesc::Letters(vec![Ones(1), Zeros(63), Ones(1)]),
+        BitsDesc::Letters(vec![Every(3, 200), Zeros(13)]),
+        BitsDesc::Letters(vec![Zeros(511), Ones(2)]),
+    ];
+    if big {
+        v.push(BitsDesc::Letters(vec![Every(3, 5000), Ones(4097)]));
+        v.push(BitsDesc::Letters(vec![Every(25000, 5), Zeros(1)]));
+    }
+    v
+}
+
+/// The catalogue. `big` adds multi-block / multi-superblock instances.
+pub fn catalogue(big: bool, seed_pattern: u64) -> Vec<Desc> {
+    let mut c: Vec<Desc> = vec![
+        Desc::U64(0),
+        Desc::U64(seed_pattern),
+        Desc::Usize(usize::MAX),
+        Desc::Pair(1, u64::MAX),
+        Desc::VecU64(vec![]),
+        Desc::VecU64(vec![7]),
+        Desc::VecU64(vec![1, 0, u64::MAX]),
+        Desc::VecUsize(vec![3, usize::MAX]),
+        Desc::VecPair(vec![]),
+        Desc::VecPair(vec![(1, 2), (u64::MAX, 0)]),
+    ];
+    for len in 0..=17usize {
+        if big || len <= 2 || len == 7 || len == 8 || len == 9 || len == 16 || len == 17 {
+            c.push(Desc::Bytes((0..len).map(|i| (i * 37 + 1) as u8).collect()));
+        }
+    }
+    for len in [0usize, 1, 7, 8, 9, 17] {
+        c.push(Desc::Str("abcdefghijklmnopqrstuvwxyz"[..len].to_string()));
+    }
+    c.push(Desc::Str("å∫ç∂´ƒ©".to_string()));
+    c.push(Desc::Str("ΑΒΓ😀x".to_string()));
+    c.extend([
+        Desc::OptVecU64(None),
+        Desc::OptVecU64(Some(vec![])),
+        Desc::OptVecU64(Some(vec![9, 8])),
+        Desc::OptBytes(None),
+        Desc::OptBytes(Some(vec![1, 2, 3])),
+        Desc::OptStr(Some("héllo".to_string())),
+        Desc::OptU64(None),
+        Desc::OptU64(Some(5)),
+        Desc::OptOptVecU64(None),
+        Desc::OptOptVecU64(Some(None)),
+        Desc::OptOptVecU64(Some(Some(vec![4]))),
+        Desc::OptOptStr(Some(Some("xyz".to_string()))),
+    ]);
+    for b in bits_catalogue(big) {
+        c.push(Desc::Raw(b.clone()));
+        for s in 0..8u8 {
+            if big || s == 0 || s == 7 || matches!(b, BitsDesc::Word { len: 7, .. }) {
+                c.push(Desc::Bv { bits: b.clone(), supports: s });
+            }
+        }
+        c.push(Desc::Sparse(b.clone()));
+        c.push(Desc::Rl(b.clone()));
+    }
+    c.push(Desc::OptBv(None));
+    c.push(Desc::OptBv(Some((BitsDesc::Word { len: 7, word: 0b1011001 }, 7))));
+    c.push(Desc::OptBv(Some((BitsDesc::Word { len: 7, word: 0b1011001 }, 0))));
+    for w in [1usize, 2, 7, 8, 13, 31, 32, 33, 63, 64] {
+        let m = if w == 64 { !0 } else { (1u64 << w) - 1 };
+        c.push(Desc::Int { width: w, values: vec![] });
+        c.push(Desc::Int { width: w, values: vec![m, 0, seed_pattern & m, 1] });
+    }
+    if big {
+        for w in 1..=64usize {
+            let m = if w == 64 { !0 } else { (1u64 << w) - 1 };
+            c.push(Desc::Int { width: w, values: (0..9u64).map(|i| (i.wrapping_mul(0x9E37_79B9_7F4A_7C15) ^ seed_pattern) & m).collect() });
+        }
+    }
+    c.push(Desc::OptInt(None));
+    c.push(Desc::OptInt(Some((13, vec![1, 2, 8191]))));
+    c.push(Desc::SparseMulti { universe: 5, values: vec![0, 0, 3, 3, 3, 4] });
+    c.push(Desc::SparseMulti { universe: 3, values: vec![1, 1, 1, 1, 2] });
+    c.push(Desc::SparseMulti { universe: 300, values: vec![63, 64, 64, 127, 128, 128, 299] });
+    // Run-length vectors with 1, 8, 9 and many blocks.
+    for k in [31usize, 32, 33, 256, 288, 300] {
+        if big || k == 33 || k == 288 {
+            c.push(Desc::Rl(BitsDesc::Runs { pairs: std::iter::repeat((1u64, 1u64)).take(k).collect(), tail: 3 }));
+        }
+    }
+    c.push(Desc::Rl(BitsDesc::Runs { pairs: vec![(0, 1 << 40), (1 << 50, 1 << 60)], tail: 1 << 61 }));
+    c.push(Desc::Sparse(BitsDesc::Runs { pairs: vec![(0, 1), ((1 << 62) - 1, 2)], tail: (1 << 63) + 5 }));
+    for v in [vec![], vec![0u64], vec![1, 0, 1, 0], vec![3, 1, 4, 1, 5, 9, 2, 6], vec![0, 65535, 1, 32768]] {
+        c.push(Desc::WmCore(v.clone()));
+        c.push(Desc::Wm(v));
+    }
+    for b in bits_catalogue(big).into_iter().skip(2) {
+        c.push(Desc::RankSup(b.clone()));
+        c.push(Desc::SelSup(b.clone()));
+        c.push(Desc::SelZeroSup(b));
+    }
+    c
+}
+
+/// Values that have a memory-mapped view type.
+pub fn is_mappable(d: &Desc) -> bool {
+    matches!(d, Desc::VecU64(_) | Desc::VecUsize(_) | Desc::VecPair(_) | Desc::Bytes(_) | Desc::Str(_) | Desc::OptVecU64(_) | Desc::OptBytes(_) | Desc::OptStr(_) | Desc::Raw(_) | Desc::Int { .. } | Desc::OptInt(_))
+}
+
+/// Keeps the compiler honest about the trait imports used above.
+#[allow(dead_code)]
+fn _uses(bv: &mut BitVector) {
+    bv.enable_rank();
+    bv.enable_select();
+    bv.enable_select_zero();
+    let _: &RawVector = bv.as_ref();
+}
